@@ -328,6 +328,7 @@ func c51Attach(c *Ctx, p c51Params, ftPk *packages.Package) {
 			continue
 		}
 		g := c.P.CFG(info, fd.Body)
+		lf := c51NewFn(info, fd)
 		var verdict []ast.Node
 		decided := false
 		ast.Inspect(fd.Body, func(n ast.Node) bool {
@@ -370,6 +371,12 @@ func c51Attach(c *Ctx, p c51Params, ftPk *packages.Package) {
 					}
 					neg = !neg
 					e = ast.Unparen(u.X)
+				}
+				if id, isId := e.(*ast.Ident); isId {
+					// a local holding the test result (isFT := idx.IsFullText())
+					if ds := lf.defs[info.Uses[id]]; len(ds) == 1 && ds[0].idx < 0 {
+						e = ast.Unparen(ds[0].rhs)
+					}
 				}
 				call, ok := e.(*ast.CallExpr)
 				if !ok {
